@@ -13,6 +13,7 @@ from buidl.timelock import (
     Locktime,
     Sequence,
     MAX_SEQUENCE,
+    SEQUENCE_DISABLE_RELATIVE_FLAG,
 )
 
 
@@ -868,15 +869,18 @@ def op_checklocktimeverify(stack, tx_obj, input_index):
 
 
 def op_checksequenceverify(stack, tx_obj, input_index):
-    sequence = tx_obj.tx_ins[input_index].sequence
-    if not sequence.is_relative():
-        return False
     if len(stack) < 1:
         return False
     element = decode_num(stack[-1])
     if element < 0:
         return False
+    # BIP112: if the disable flag of the operand is set, this is a NOP
+    if element & SEQUENCE_DISABLE_RELATIVE_FLAG:
+        return True
     if tx_obj.version < 2:
+        return False
+    sequence = tx_obj.tx_ins[input_index].sequence
+    if not sequence.is_relative():
         return False
     stack_sequence = Sequence(element)
     if not sequence.is_comparable(stack_sequence):
